@@ -261,6 +261,15 @@ def vary_string_lengths(c, rng, lead_blanks=False):
                 # right-justified text: leading blanks are data (trailing ones are padding)
                 nb = (b' ' * rng.randint(1, 3) + nb)[:max(n, 1)]
                 nb = nb.rstrip(b' ') or b' x'[:n]
+            if lead_blanks and n >= 2 and rng.random() < 0.35:
+                # text that ENDS (before the blank padding, or at the very end of the field) in a character Python's
+                # str.strip()/rstrip() would also remove but which is data here: TAB, CR LF, VT, FF, FS..US, NEL, NBSP
+                tail = rng.choice([b'\t', b'\r\n', b'\x0b', b'\x0c', b'\x1c', b'\x1f', b'\x85', b'\xa0', b'\n'])
+                keep = rng.choice([n - len(tail), max(len(nb) - len(tail), 0), rng.randint(0, n - len(tail))])
+                nb = (nb + b'pqrstuvwxyz' * 8)[:max(keep, 0)].rstrip(b' ') + tail
+                if rng.random() < 0.3:
+                    nb = (tail + nb)[:n]                      # ... and one in front
+                    nb = nb.rstrip(b' ') or tail[:n]
             toks[k] = 'y' + (nb.hex() or '-')
             c['py_vals'][si][k] = nb
             changed += 1
